@@ -1,6 +1,6 @@
 #!/bin/sh
 # usage: tools/try_seed.sh <seeded dir> <check id>...   -- runs checks against a scratch copy of /repo/nixio with the seeded patch applied
-d=$(mktemp -d); cp -r /repo/nixio $d/
+d=$(mktemp -d); cp -r ${BD_SRC:-/repo}/nixio $d/
 (cd $d && git apply --whitespace=nowarn "$1/patch.diff") || { echo "patch does not apply"; rm -rf $d; exit 2; }
 shift
 for c in "$@"; do NIXSA_REPO=$d NIXSA_EVIDENCE_DIR=$d/ev /verif/check $c 2>&1 | grep "^C[0-9][0-9]\.\|ANALYSIS\|^VIOLATION" | cut -c1-240 | head -3; done
